@@ -473,6 +473,27 @@ def _w_reshape_edge(self, op):
     return o
 
 
+def _w_add_set_of_foreign_lines(self, op):
+    """a set built by the caller whose items are line objects of *another* Gfa (same names) is added"""
+    names = [x for x in self.gfa.segment_names][:3]
+    if not names:
+        self.st.count("op.skipped")
+        return core.Outcome(True, "skipped")
+    g2 = gfapy.Gfa(version="gfa2")
+    for nme in names:
+        g2.add_line("S\t%s\t5\t*" % nme)
+    self.foreign_gfa = g2
+    o = core.call(gfapy.Line, "U\t%s\t%s" % (op["id"], " ".join(names)), version="gfa2", vlevel=self.gfa.vlevel)
+    if not o.ok:
+        return core.Outcome(True, "skipped")
+    u = o.value
+    r = core.call(setattr, u, "items", [g2.segment(nme) for nme in names])
+    if not r.ok:
+        return core.Outcome(True, "skipped")
+    self.st.count("probe.set_of_foreign_lines")
+    return core.call(self.gfa.add_line, u)
+
+
 def _w_add_many(self, op):
     """several lines added in one step (one observation); the outcome is that of the first failure"""
     for ln in op["lines"]:
@@ -484,6 +505,7 @@ def _w_add_many(self, op):
 
 World.do_add_many = _w_add_many
 World.do_rm_other_group = _w_rm_other_group
+World.do_add_set_of_foreign_lines = _w_add_set_of_foreign_lines
 World.do_reshape_edge = _w_reshape_edge
 World.do_standalone_takes_item = _w_standalone_takes_item
 World.do_grp_edit = _w_grp_edit
